@@ -27,6 +27,66 @@ type wfield struct {
 	set string // (set v w): "" = read-only
 }
 
+// a pointer to a slice that lives in the world
+type wderef struct {
+	get string // *p: term over w
+	typ string // Go type of *p
+	app string // *p = append(*p, x): (app x w)
+}
+
+// *p = append(*p, x)
+func (t *translator) worldAppend(x *ast.AssignStmt, name string, d wderef, ev *env, cont func(*env) string) string {
+	c, ok := x.Rhs[0].(*ast.CallExpr)
+	if !ok || exprKey(c.Fun) != "append" || len(c.Args) != 2 || c.Ellipsis != token.NoPos {
+		unsup(x, "assignment through %s that is not *%s = append(*%s, x)", name, name, name)
+	}
+	st, isStar := c.Args[0].(*ast.StarExpr)
+	if !isStar {
+		unsup(x, "assignment through %s that is not *%s = append(*%s, x)", name, name, name)
+	}
+	if id, isId := st.X.(*ast.Ident); !isId || id.Name != name {
+		unsup(x, "assignment through %s that is not *%s = append(*%s, x)", name, name, name)
+	}
+	if t.mayPanic(c.Args[1], ev) {
+		unsup(c.Args[1], "appended value that can panic")
+	}
+	if at := t.typeOf(c.Args[1], ev); "[]"+at != d.typ {
+		unsup(c.Args[1], "append of a %s to a %s", at, d.typ)
+	}
+	return "(let w := " + d.app + " " + t.pure(c.Args[1], ev, "") + " w in\n" + cont(ev) + ")"
+}
+
+// the store discipline of an area may rest on "this pointer argument is a fresh object": audited over every
+// call of the function in its package (syntactically: the argument must be &T{...})
+func (t *translator) auditFresh(fn string) {
+	ix, ok := t.a.fresh[fn]
+	if !ok {
+		return
+	}
+	for _, f := range t.pkgFiles() {
+		ast.Inspect(f, func(n ast.Node) bool {
+			c, isCall := n.(*ast.CallExpr)
+			if !isCall {
+				return true
+			}
+			if id, isId := c.Fun.(*ast.Ident); !isId || id.Name != fn {
+				return true
+			}
+			if ix >= len(c.Args) {
+				unsup(c, "call of %s with too few arguments", fn)
+			}
+			u, isU := c.Args[ix].(*ast.UnaryExpr)
+			if isU && u.Op == token.AND {
+				if _, isLit := u.X.(*ast.CompositeLit); isLit {
+					return true
+				}
+			}
+			unsup(c, "call of %s whose argument %d is not a fresh &T{...} (the store discipline of area %s assumes the object is new)", fn, ix+1, t.a.name)
+			return true
+		})
+	}
+}
+
 // the area being translated (for helpers that have no translator at hand)
 var curArea *area
 
@@ -304,6 +364,40 @@ func (t *translator) switchAsIf(x *ast.SwitchStmt) ast.Stmt {
 		return &ast.EmptyStmt{}
 	}
 	return els
+}
+
+func init() {
+	cl := func(get, set, typ string) recField { return recField{"CtorPrims." + get, "CtorPrims." + set, typ} }
+	areas["ctorshadow"] = &area{
+		name:   "ctorshadow",
+		module: "CtorShadowGen",
+		header: []string{
+			"From Coq Require Import ZArith List Bool String.",
+			"From Shoot Require Import Base.Str Model.Ctor Bridge.GoPrims Bridge.CtorPrims.",
+		},
+		world: "CtorPrims.cworld",
+		funcs: []fnSpec{
+			{file: "internal/constructor/fields.go", name: "checkShadowAndAppend"},
+		},
+		types: map[string]string{
+			"bool": "bool", "string": "string", "int": "Z", "int32": "Z",
+			"*Field": "CtorPrims.cloc", "[]*Field": "(list CtorPrims.cloc)", "*[]*Field": "-",
+		},
+		ptrs: map[string]bool{},
+		ints: map[string]bool{"int32": true},
+		stores: map[string]map[string]recField{
+			"*Field": {
+				"name":       cl("get_name", "", "string"),
+				"depth":      cl("get_depth", "", "int32"),
+				"isShadowed": cl("get_isShadowed", "set_isShadowed", "bool"),
+			},
+		},
+		wderefs: map[string]wderef{
+			"*[]*Field": {get: "(CtorPrims.old_locs w)", typ: "[]*Field", app: "CtorPrims.append_cell"},
+		},
+		fresh: map[string]int{"checkShadowAndAppend": 1},
+		nilPan: "PNilDeref",
+	}
 }
 
 func init() {
